@@ -146,9 +146,14 @@ Fixpoint hist_eqb (qs : list request) (m o : list xobs) : bool :=
   end.
 
 (* histories whose model run is schedule-dependent (simultaneous events) or ran out of fuel are not compared *)
+(* a Timeout whose limit is zero or negative arms a timer that is due at once: whether its callback or the attempt's
+   function acts first is up to the scheduler *)
+Definition has_elapsed_limit (q : request) : bool :=
+  existsb (fun p => match p with PTimeout l => l <=? 0 | _ => false end) (q_stack q).
+
 Definition skipped (h : hcase) : bool :=
   let '(b, l, k, c) := init_world_insts (h_start h) (h_insts h) in
-  any_flagged (h_start h) b l k c (h_reqs h).
+  any_flagged (h_start h) b l k c (h_reqs h) || existsb has_elapsed_limit (h_reqs h).
 
 Definition agrees (h : hcase) : bool := skipped h || hist_eqb (h_reqs h) (run_history h) (h_obs h).
 
